@@ -179,7 +179,7 @@ class Interp:
         self.samples = samples or []
         self.nonneg = nonneg or set()
         self.decisions = list(decisions or [])
-        self.pos = 0
+        self._dpos = 0
         self.conds: List[Tuple[str, bool]] = []
         self.events: List[tuple] = []
         self.depth = 0
@@ -192,11 +192,11 @@ class Interp:
 
     # ---------------------------------------------------------------- decisions
     def decide(self, text: str) -> bool:
-        if self.pos < len(self.decisions):
-            d = self.decisions[self.pos]
+        if self._dpos < len(self.decisions):
+            d = self.decisions[self._dpos]
         else:
             raise NeedDecision(text)
-        self.pos += 1
+        self._dpos += 1
         self.conds.append((text, d))
         return d
 
@@ -608,6 +608,19 @@ class Interp:
             return dict_method(self, v, attr)
         if isinstance(v, Arr):
             return arr_method(self, v, attr)
+        if isinstance(v, SliceV):
+            if attr in ("start", "stop", "step"):
+                return getattr(v, attr)
+        if isinstance(v, Col):
+            if attr in ("max", "min", "sum"):
+                return BoundBuiltin(lambda i, ar, k: {"max": _minmax("max"), "min": _minmax("min"), "sum": _b_sum}[attr](i, [v], {}))
+        if isinstance(v, Arr2):
+            if attr == "shape":
+                return (num(len(v.rows)), num(len(v.rows[0].items) if v.rows else 0))
+            if attr == "size":
+                return num(sum(len(r.items) for r in v.rows))
+            if attr == "copy":
+                return BoundBuiltin(lambda i, ar, k: Arr2([Arr(list(r.items)) for r in v.rows]))
         if isinstance(v, str):
             return str_method(self, v, attr)
         if isinstance(v, tuple) and attr in ("count", "index"):
@@ -721,6 +734,15 @@ class Interp:
             items = base if isinstance(base, list) else base.items
             i = self._index(k, len(items), node)
             items[i] = v
+            return
+        if isinstance(base, Arr2):
+            i = self._index(k, len(base.rows), node)
+            if isinstance(v, Arr):
+                base.rows[i] = Arr(list(v.items))
+            elif isinstance(v, (list, tuple)):
+                base.rows[i] = Arr(list(v))
+            else:
+                raise NotInFragment(f"row store of {type(v).__name__}")
             return
         if isinstance(base, Obj):
             hit = self.repo.find_method(base.mod, base.node, "__setitem__") if base.node else None
@@ -992,12 +1014,36 @@ class Interp:
 
     def e_Compare(self, e, fr):
         left = self.eval(e.left, fr)
+        if len(e.ops) == 1 and isinstance(e.ops[0], (ast.Eq, ast.NotEq)):
+            right0 = self.eval(e.comparators[0], fr)
+            if isinstance(left, (Arr, Arr2)) or isinstance(right0, (Arr, Arr2)):
+                return self._array_eq(left, right0, isinstance(e.ops[0], ast.NotEq))
+            if not self.compare(left, e.ops[0], right0, e):
+                return False
+            return True
         for op, c in zip(e.ops, e.comparators):
             right = self.eval(c, fr)
             if not self.compare(left, op, right, e):
                 return False
             left = right
         return True
+
+    def _array_eq(self, a, b, negate):
+        """numpy elementwise (broadcast) equality"""
+        def elem(x, y):
+            r = self.compare(x, ast.Eq(), y)
+            return (not r) if negate else r
+        if isinstance(a, Arr) and isinstance(b, Arr):
+            if len(a.items) != len(b.items):
+                raise NotInFragment("array == with different lengths")
+            return BoolVec([elem(x, y) for x, y in zip(a.items, b.items)])
+        if isinstance(a, Arr2) and isinstance(b, Arr):
+            return BoolMat([[elem(x, y) for x, y in zip(row.items, b.items)] for row in a.rows])
+        if isinstance(b, Arr2) and isinstance(a, Arr):
+            return self._array_eq(b, a, negate)
+        if isinstance(a, Arr) and (is_num(b) or b is None):
+            return BoolVec([elem(x, b) for x in a.items])
+        raise NotInFragment(f"array comparison {type(a).__name__} == {type(b).__name__}")
 
     def e_BinOp(self, e, fr):
         return self.binop(self.eval(e.left, fr), e.op, self.eval(e.right, fr), e)
@@ -1046,6 +1092,12 @@ class Interp:
             return Unknown("fstr")
         if isinstance(a, Unknown) or isinstance(b, Unknown) or isinstance(a, str) or isinstance(b, str):
             return Unknown("arith")
+        if isinstance(a, Col) and isinstance(b, Col) and len(a.items) == len(b.items):
+            return Col([self.binop(x, op, y, node) for x, y in zip(a.items, b.items)])
+        if isinstance(a, Col) and is_num(b):
+            return Col([self.binop(x, op, b, node) for x in a.items])
+        if is_num(a) and isinstance(b, Col):
+            return Col([self.binop(a, op, y, node) for y in b.items])
         if isinstance(a, Arr) or isinstance(b, Arr):
             return Unknown("arr-arith")
         raise NotInFragment(f"binop {type(op).__name__} on {type(a).__name__},{type(b).__name__}" + (f" at {norm(node)}" if node is not None else ""))
@@ -1080,7 +1132,7 @@ class Interp:
                 if hit:
                     m, cn, fn = hit
                     return self.call(FuncV(fn, m, self_obj=base, cls=cn, qual=f"{cn.name}.__getitem__"), [SliceV(lo, hi)], {})
-            items = base.items if isinstance(base, Arr) else base
+            items = base.items if isinstance(base, Arr) else (base.rows if isinstance(base, Arr2) else base)
             if isinstance(items, (list, tuple, str)):
                 def ci(x):
                     if x is None:
@@ -1089,6 +1141,8 @@ class Interp:
                         return int(x.const_value())
                     raise NotInFragment(f"non-constant slice bound {norm(e)}")
                 r = items[ci(lo):ci(hi)]
+                if isinstance(base, Arr2):
+                    return Arr2(list(r))
                 return Arr(r) if isinstance(base, Arr) else r
             raise NotInFragment(f"slice of {type(base).__name__} at {norm(e)}")
         if isinstance(e.slice, ast.Tuple):
@@ -1231,6 +1285,16 @@ class Col:
 
     def __init__(self, items):
         self.items = items
+
+
+class BoolVec:
+    def __init__(self, items):
+        self.items = list(items)
+
+
+class BoolMat:
+    def __init__(self, rows):
+        self.rows = [list(r) for r in rows]
 
 
 class BoundBuiltin:
@@ -1716,7 +1780,79 @@ def _np_array_equal(it, args, kw):
     return e
 
 
+def _np_zeros(it, args, kw):
+    shp = args[0]
+    def ci(x):
+        if is_num(x) and x.is_const():
+            return int(x.const_value())
+        raise NotInFragment("np.zeros with symbolic shape")
+    if isinstance(shp, (tuple, list)):
+        dims = [ci(x) for x in shp]
+    else:
+        dims = [ci(shp)]
+    if len(dims) == 1:
+        return Arr([num(0)] * dims[0])
+    if len(dims) == 2:
+        if dims[0] > 64:
+            raise NotInFragment("np.zeros: table too large for the abstract heap")
+        return Arr2([Arr([num(0)] * dims[1]) for _ in range(dims[0])])
+    raise NotInFragment("np.zeros rank > 2")
+
+
+def _np_concatenate(it, args, kw):
+    parts = args[0]
+    if all(isinstance(p, Arr2) for p in parts):
+        rows = []
+        for p in parts:
+            rows += [Arr(list(r.items)) for r in p.rows]
+        return Arr2(rows)
+    if all(isinstance(p, Arr) for p in parts):
+        out = []
+        for p in parts:
+            out += list(p.items)
+        return Arr(out)
+    return Unknown("np.concatenate")
+
+
+def _np_delete(it, args, kw):
+    a, idx = args[0], args[1]
+    if isinstance(a, Arr2):
+        i = it._index(idx, len(a.rows))
+        return Arr2([Arr(list(r.items)) for j, r in enumerate(a.rows) if j != i])
+    if isinstance(a, Arr):
+        i = it._index(idx, len(a.items))
+        return Arr([x for j, x in enumerate(a.items) if j != i])
+    return Unknown("np.delete")
+
+
+def _np_all(it, args, kw):
+    v = args[0]
+    if isinstance(v, BoolVec):
+        return all(v.items)
+    if isinstance(v, BoolMat):
+        ax = kw.get("axis", args[1] if len(args) > 1 else None)
+        if is_num(ax) and ax.is_const() and ax.const_value() == 1:
+            return BoolVec([all(r) for r in v.rows])
+        if ax is None:
+            return all(all(r) for r in v.rows)
+    if isinstance(v, bool):
+        return v
+    return Unknown("np.all")
+
+
+def _np_where(it, args, kw):
+    v = args[0]
+    if isinstance(v, BoolVec) and len(args) == 1:
+        return (Arr([num(i) for i, b in enumerate(v.items) if b]),)
+    return Unknown("np.where")
+
+
 DEFAULT_EXT: Dict[str, Callable] = {
+    "numpy.zeros": _np_zeros,
+    "numpy.concatenate": _np_concatenate,
+    "numpy.delete": _np_delete,
+    "numpy.all": _np_all,
+    "numpy.where": _np_where,
     "numpy.array": _np_array,
     "numpy.abs": _b_abs,
     "numpy.nan": None,  # attribute, handled below
